@@ -165,18 +165,20 @@ Fixpoint cont_steps (i : N) (l : list ostep) : list (N * N) :=
   end.
 (* window of finding C12-gang-app-rejected-on-recovery: the applications rejected because the placeholder ask does not
    fit a queue maximum of the restarted core *)
-Definition gang_rejected (pre : ostate) (st : ostep) : list N :=
+Definition gang_rejected (qsA : list oqueue) (pre : ostate) (st : ostep) : list N :=
   match st_op st with
   | OpAppAdd app q _ true _ (Some ph) _ _ _ =>
       if existsb (fun e => match e with EAppRejected a => a =? app | _ => false end) (st_events st) &&
          existsb (fun x => match find_queue pre x with
                            | Some qq => match q_max qq with Some m => negb (FitInMaxUndef (Some m) (Some ph)) | None => false end
                            | None => false end)
-                 (chain_of (S (length (s_queues pre))) (s_queues pre) q)
+                 (* the chain of the application's queue; a dynamic queue that the restarted core has not created yet is
+                    found through the old core's queue table (same names, same parents) *)
+                 (chain_of (S (length (s_queues pre))) (s_queues pre) q ++ chain_of (S (length qsA)) qsA q)
       then [app] else []
   | _ => []
   end.
-Definition gang_window (h : ohistory) : list N := flat_map (fun p => gang_rejected (fst p) (snd p)) (hist_pairs h).
+Definition gang_window (qsA : list oqueue) (h : ohistory) : list N := flat_map (fun p => gang_rejected qsA (fst p) (snd p)) (hist_pairs h).
 Definition step_app (st : ostep) : N :=
   match st_op st with OpAppAdd app _ _ _ _ _ _ _ _ => app | OpAlloc r => rq_app r | _ => 0 end.
 Fixpoint replay_steps (W : list N) (i : N) (l : list ostep) : list (N * N) :=
@@ -195,7 +197,7 @@ Definition c12_check_case (h : N) (c : rccase) : list (N * N) :=
   let A := rc_a c in
   let B := last_obs (rc_replay c) in
   if dup_foreign A then [(h * 1000 + 499, 1250)] else
-  let W := gang_window (rc_replay c) in
+  let W := gang_window (s_queues A) (rc_replay c) in
   let A' := mkOS (s_nodes A) (filter (fun a => negb (memN (ap_id a) W)) (s_apps A)) (s_queues A) (s_total A) (s_nallocs A) (s_nph A)
                  (s_nres A) (s_foreign A) (s_completed A) (s_rejected A) (s_ugm A) in
   replay_steps W (h * 1000) (h_steps (rc_replay c)) ++
